@@ -468,6 +468,9 @@ def patch_rank(ctx, lib, gl, names=None, kinds=("mass", "thermal-K", "elastic-K"
 
 
 def run(ctx):
+    from ..shared import group_loop_leak_rule as _group_loop_leak_rule
+
+    _group_loop_leak_rule(ctx, "R2.9", scope=lambda f, _s=("EasyFEA.Simulations",): f.module.name.startswith(_s), min_instances=8)
     ctx.level = "other"
     ctx.explanation = (
         "The spectrum of an assembled matrix is a run-time quantity and is NOT decided. Decided statically: (R2.1) each element operator of "
